@@ -1,16 +1,30 @@
-"""Entry point:  check.py <Cxx> [--tier quick|thorough] [--replay FILE]"""
+"""Entry point:  check.py <Cxx> [--tier quick|thorough] [--replay FILE]
+Checks are discovered in harness/props_*.py (each exports CHECKS: {property id: Check subclass})."""
+import importlib
 import sys
 from pathlib import Path
 
-sys.path.insert(0, str(Path(__file__).resolve().parent))
+HERE = Path(__file__).resolve().parent
+sys.path.insert(0, str(HERE))
 
 import framework  # noqa: E402
 
 
+def all_checks():
+    out = {}
+    for p in sorted(HERE.glob("props_*.py")):
+        mod = importlib.import_module(p.stem)
+        out.update(getattr(mod, "CHECKS", {}))
+    return out
+
+
 def load(prop):
-    import props_sim
-    if prop in props_sim.CHECKS:
-        return props_sim.CHECKS[prop]()
+    for p in sorted(HERE.glob("props_*.py")):
+        # import lazily: only the module that declares the property
+        if f'"{prop}"' in p.read_text() or f"'{prop}'" in p.read_text():
+            mod = importlib.import_module(p.stem)
+            if prop in getattr(mod, "CHECKS", {}):
+                return mod.CHECKS[prop]()
     raise SystemExit(f"no check for {prop}")
 
 
